@@ -438,9 +438,11 @@ const (
 	cUIDExpunge = "UIDEXPUNGE"
 )
 
+// FETCH 4, SEARCH 4, STORE 3, COPY 3, MOVE 2, UID EXPUNGE 2, interleaved (rapid's SampledFrom favours the front)
 var kindBag = []string{
-	cFetch, cFetch, cFetch, cFetch, cStore, cStore, cStore, cSearch, cSearch, cSearch, cSearch,
-	cCopy, cCopy, cCopy, cMove, cMove, cUIDExpunge, cUIDExpunge,
+	cFetch, cSearch, cStore, cCopy, cMove, cUIDExpunge,
+	cSearch, cFetch, cCopy, cStore, cUIDExpunge, cMove,
+	cStore, cCopy, cFetch, cSearch, cFetch, cSearch,
 }
 
 // judgeStatus compares the tagged response with what is prescribed; it returns true when the command was refused
@@ -1205,6 +1207,6 @@ func runView(t *rapid.T) {
 }
 
 func TestC16Sets(t *testing.T) {
-	ev.Checks(600, 4000)
+	ev.Checks(600, 2400)
 	rapid.Check(t, runView)
 }
